@@ -527,20 +527,28 @@ func registryPhase(run *vk.Run, round uint64, n int) {
 		names = append(names, name)
 		d := map[string]any{"max-history-age": 1, "wildcard-user": map[string]any{"password": map[string]any{"type": "wildcard"}, "permissions": "present"}}
 		(&vsrv.Server{GroupsDir: group.Directory}).WriteGroup(name, d)
-		group.Add(name, nil) // registered, empty, timestamp = now
 	}
 	_ = cfg
-	time.Sleep(1150 * time.Millisecond) // all of them may expire now
 	if round == 0 {
-		// self-test of the phase: an Update with nobody joining expires the first group
+		// self-test of the phase: an Update with nobody joining expires an idle group
 		probe := names[0]
+		group.Add(probe, nil)
+		time.Sleep(1150 * time.Millisecond)
 		group.Update()
 		if group.Get(probe) == nil {
 			run.Count("registry_expiry_selftest_ok", 1)
 		} else {
 			run.Count("registry_expiry_selftest_failed", 1)
 		}
-		group.Add(probe, nil)
+	}
+	// the groups are registered 2 ms apart (registered, empty, timestamp = now): each
+	// becomes expirable one second after ITS registration, and its joiner arrives around that
+	// very moment, while the sweeps run all the time
+	created := make([]time.Time, n)
+	for i, name := range names {
+		group.Add(name, nil)
+		created[i] = time.Now()
+		time.Sleep(2 * time.Millisecond)
 	}
 	var stop atomic.Bool
 	var uwg sync.WaitGroup
@@ -549,6 +557,11 @@ func registryPhase(run *vk.Run, round uint64, n int) {
 			uwg.Add(1)
 			go func() {
 				defer uwg.Done()
+				// the expiry sweeps run at full speed while the joiners are held, for up to
+				// 3 ms, in front of each of their lock operations (among them the one between
+				// the registry lookup and the insertion)
+				vsync.SetQuiet(true)
+				defer vsync.SetQuiet(false)
 				for !stop.Load() {
 					group.Update()
 				}
@@ -569,14 +582,19 @@ func registryPhase(run *vk.Run, round uint64, n int) {
 		go func(i int, name string) {
 			defer wg.Done()
 			r := run.Rand(3, round, uint64(i))
-			time.Sleep(time.Duration(r.IntN(120000)) * time.Microsecond)
+			time.Sleep(time.Until(created[i].Add(time.Second + time.Duration(r.IntN(12000))*time.Microsecond)))
 			c := &fakeClient{id: fmt.Sprintf("%s-c", name)}
-			if group.Get(name) == nil {
+			before := group.Get(name)
+			if before == nil {
 				run.Count("registry_groups_already_expired_at_join", 1)
 			} else {
 				run.Count("registry_groups_still_registered_at_join", 1)
 			}
 			g, err := group.AddClient(name, c, group.ClientCredentials{Username: strp("u"), Password: "x"})
+			if err == nil && before != nil && g != before {
+				// the group object found a moment ago was expired while this join was under way
+				run.Count("registry_joins_overtaken_by_an_expiry", 1)
+			}
 			if err != nil {
 				run.Count("registry_join_errors", 1)
 			}
@@ -774,6 +792,12 @@ func main() {
 	os.MkdirAll(group.Directory, 0o755)
 	os.MkdirAll(group.DataDirectory, 0o755)
 	n := run.Pick(1200, 60000)
+	light := os.Getenv("VERIF_LIGHT") == "1"
+	if light {
+		// the pass with the light vsync variant (race hunting): a third of the histories,
+		// the whole registry phase
+		n /= 3
+	}
 	first := uint64(0)
 	if rep, ok := vk.ReplayInput(); ok {
 		m, _ := rep["replay"].(map[string]any)
@@ -812,6 +836,9 @@ func main() {
 		var owg sync.WaitGroup
 		var onext atomic.Uint64
 		total := uint64(run.Pick(1500, 40000))
+		if light {
+			total /= 3
+		}
 		for w := 0; w < 4; w++ {
 			owg.Add(1)
 			go func() {
@@ -828,9 +855,11 @@ func main() {
 		owg.Wait()
 		run.FloorCounter("observe_then_join_histories_linearizable", int64(total*9/10))
 		vsync.SetPerturb(60)
+		vsync.SetMaxSleep(3000)
 		for round := 0; round < run.Pick(3, 40); round++ {
 			registryPhase(run, uint64(round), 160)
 		}
+		vsync.SetMaxSleep(200)
 		run.FloorCounter("registry_joins_found_in_registered_group", 50)
 	}
 	ev, edges, _ := vsync.Stats()
